@@ -582,8 +582,17 @@ PROPS = {
                                         "--nkeys", "12", "--compact-bias", "1", "--seek-bias", "1"],
                    quick=32, thorough=800)]),
     "C11": dict(
-        design=[(CORE, [Q1], ["MC_RainCore_small.cfg", "MC_RainCore_pins.cfg"]), REOPEN],
-        switches=[("Bug_OpenKeepsOldLogNumber", REO, REOQ, "NoDeadLogAfterPass"),
+        design=[(CORE, [Q1], ["MC_RainCore_small.cfg", "MC_RainCore_pins.cfg"]), REOPEN,
+                # the version list and who keeps a superseded version alive (readers, compactions);
+                # _strict: the design in which a reader's release triggers a deletion pass
+                # satisfies C11 as stated (the code does not: known finding KF-C11-deferred-reclaim)
+                ("MC_RainVersions.tla", ["MC_RainVersions.cfg", "MC_RainVersions_strict.cfg"],
+                 ["MC_RainVersions.cfg", "MC_RainVersions_strict.cfg", "MC_RainVersions_big.cfg"])],
+        switches=[("Bug_LookBeforeLock", "MC_RainVersions.tla", "MC_RainVersions.cfg", "NoLeakedVersion"),
+                  ("Bug_FailedReadNoRelease", "MC_RainVersions.tla", "MC_RainVersions.cfg", "RefsExact"),
+                  ("Bug_CompactionNoRelease", "MC_RainVersions.tla", "MC_RainVersions.cfg", "RefsExact"),
+                  ("Bug_PassIgnoresHolders", "MC_RainVersions.tla", "MC_RainVersions.cfg", "NothingHeldDeleted"),
+                  ("Bug_OpenKeepsOldLogNumber", REO, REOQ, "NoDeadLogAfterPass"),
                   ("Bug_DeletePending", CORE, Q1, "NothingLiveDeleted"),
                   ("Bug_DeletePinned", CORE, "MC_RainCore_pins.cfg", "NothingLiveDeleted")],
         work=[dict(driver="hist", args=["--nops", "60", "--per-file", "6", "--max-iters", "3",
